@@ -113,7 +113,7 @@ def run(tier, seed, t0):
             raise RuntimeError("harness build failed:\n" + outh[-3000:])
     total, bad, samples, distinct = search(tier, seed)
     if bad:
-        raise C.Violation(PROP, "the parser panics, aborts or exhausts the stack", bad + "\nreplay: harness parse <stream> %d | harness crash-gen 20000 | harness crash | ocaml/driver probes 40 1500 20000 | harness crash" % seed, True)
+        raise C.Violation(PROP, "the parser panics, aborts, exhausts the stack or does not come back with a verdict", bad + "\nreplay: harness parse <stream> %d | harness crash-gen 20000 | harness crash | ocaml/driver probes 40 1500 20000 | harness crash" % seed, True)
     if problems and okr:
         raise C.Violation(PROP, "translator could not translate part of the parser: " + problems, "search: %d inputs all got a verdict (incl. the nesting sweep on a 2 MiB thread, debug and release)" % total, False)
     if not proof["ok"]:
